@@ -5,7 +5,7 @@ from vlib.common import coq_str, coq_list
 
 THEOREMS = ["C08_complete_assembles_listed_parts", "C08_complete_uses_latest_uploads", "C08_part_is_latest_upload", "C08_failed_complete_changes_nothing",
             "C08_only_put_and_complete_touch_objects", "C08_uploads_are_isolated", "C08_abort_removes", "C08_finished_upload_is_gone",
-            "C08_copy_range_exact", "C08_copy_range_window", "C08_copy_range_complete", "C08_slice_length", "C08_list_uploads_page", "C08_list_uploads_pages_complete"]
+            "C08_copy_range_exact", "C08_copy_range_window", "C08_copy_range_complete", "C08_slice_length", "C08_list_uploads_page", "C08_list_uploads_pages_complete", "C08_old_page_selection_refuted"]
 TARGETS = ["Properties/C08.vo", "Check/MultipartCheck.vo"]
 MIN = 5 * 1024 * 1024
 KEYS = ["mp/a", "b c+d", "ü/deep/er/key", "plain"]
